@@ -1,9 +1,6 @@
 (* F4: the model of the code as it is loses the bytes written into the buffer of a recv_into whose task gets a
    cancellation request between the read event and its wake-up (either order).  Witnesses checked by vm_compute. *)
-From EN Require Import Lib.Bytes Conc.SockReader.
-
-Definition received (os : list obs) : bytes :=
-  flat_map (fun o => match o with ORes (RBytes b) => b | _ => [] end) os.
+From EN Require Import Lib.Bytes Conc.SockReader Conc.SockReaderSpec.
 
 Definition hello : bytes := [104; 101; 108; 108; 111]%N.
 Definition world : bytes := [32; 119; 111; 114; 108; 100]%N.
